@@ -305,6 +305,10 @@ def frontend_docs(cases, fmt, wd, tag, per_fn=10, per_file=300):
 # ---------------------------------------------------------------------------------------------
 # comparison
 
+NS = L.sym_namespace()
+BY_VALUE = []
+
+
 def check_embedded_default(case, text):
     """C text of one default vs the specification's tree.  -> None or (obs_class, detail)"""
     try:
@@ -315,6 +319,15 @@ def check_embedded_default(case, text):
         return "embed-unparseable", {"text": text}
     if L.sem_equal(case["s_norm"], L.norm(c_ast)) or (not case["has_opq"] and L.sem_equal(case["s_norm"], L.norm(c_ast, True))):
         return None
+    if case["foldish"] and not case["has_opq"]:
+        # the compiler folded constants in a way the normal form does not know (e.g. `(1).real`): the text is still the
+        # same default if CPython computes the same value from it (operands record every operation applied to them)
+        try:
+            if L.eval_default(c_ast, dict(NS)) == case["s_val"]:
+                BY_VALUE.append(text)
+                return None
+        except Exception:
+            pass
     return "embed-mismatch", {"text": text, "parses_as": ast.unparse(c_ast)}
 
 
@@ -370,7 +383,8 @@ def run(tier, seed):
     P = QUICK if tier == "quick" else THOROUGH
     jobs = int(os.environ.get("VERIF_JOBS", "0")) or P["jobs"] or min(core.NCPU, 8)
     cov = {"tlc": []}
-    ns = L.sym_namespace()
+    ns = NS
+    del BY_VALUE[:]
 
     # ---- model checking: TLC enumerates the cases, decides the invariants, publishes
     phase = {}
@@ -732,7 +746,8 @@ def run(tier, seed):
         "transitions": sum(t["states_generated"] for t in cov["tlc"]),
         "traces_validated_against_impl": n_obs,
         "evaluations": n_eval, "distinct_nontrivial": len(nontriv),
-        "expr_defaults_validated_on_front_end": n_fe,
+        "expr_defaults_validated_on_front_end": n_fe, "foldable_texts_accepted_by_value": len(BY_VALUE),
+        "foldable_texts_accepted_by_value_examples": sorted(set(BY_VALUE))[:8],
         "expr_cases_published": len(expr_all), "expr_cases_raising_at_definition": n_raise, "expr_cases_replayed": len(chosen),
         "sig_cases_published": len(sig_all), "sig_cases_replayed": len(sig_chosen),
         "model_node_kinds": kinds, "model_single_cause_hazards": single,
@@ -750,6 +765,7 @@ def run(tier, seed):
     })
     if os.environ.get("VERIF_C25_DUMP"):
         core.write_ndjson(os.environ["VERIF_C25_DUMP"], [{"desc": d, "detail": x} for d, x in rep.violations])
+        core.write_ndjson(os.environ["VERIF_C25_DUMP"] + ".kf", [{"kf": k, "detail": x} for k, v in rep.kf_hits.items() for x in v])
     if n_compile_rejects > 0.05 * max(1, len(fns)):
         core.die("the compiler rejected %d of %d generated functions: %s" % (n_compile_rejects, len(fns), rejects[:3]))
     rc = rep.finish()
